@@ -40,6 +40,7 @@ def run(ctx):
                       "and the constructor records refs[name] = ref under exactly `ref is not None`", floor=2)
     ctx.rule("R08.e", "_sync_refs re-resolves exactly the links one of whose dependencies matches one of the delivered events by (owner identity, name) -- decided by abstract "
                       "interpretation on every non-empty event subset of a two-parameter source with three links (exhaustive for that configuration)", floor=1)
+    ctx.rule("R08.m", "setter model: Parameter.__set__ interpreted abstractly on every combination (576) of route x constant/readonly x validation outcome x identity x reference mode x watchers x batching agrees with the specification of this property (see checks/setter_model.py)", floor=1)
     ctx.not_decided += ["that the parameter equals the reference's resolved value after arbitrary source histories (needs execution)"]
 
     # ----------------------------------------------------------- R08.a
@@ -271,6 +272,10 @@ def run(ctx):
                      input="source pushes a value the target rejects (ValueError), then t.a = 7, then the source changes -> a is overwritten, link still alive")
         else:
             ctx.ok("R08.c", x.f, x.temp[0], "the syncing marker is removed on every exit of the scope")
+
+    # model-level rule, run last (see DESIGN §10)
+    from checks import setter_model
+    setter_model.report(ctx, "C08", "R08.m")
 
 
 def _enclosing(fnode, target):
